@@ -638,9 +638,16 @@ class DateTimeFieldFormat(AbstractFieldFormat):
         super().__init__(field_name, is_allowed_to_be_empty, length, rule, data_format, empty_value)
         self.human_readable_format = rule
 
-        self.strptime_format = rule
-        for human_readyble_item, strptime_item in DateTimeFieldFormat._HUMAN_READABLE_TO_STRPTIME_TUPLES:
-            self.strptime_format = self.strptime_format.replace(human_readyble_item, strptime_item)
+        # Translate all place holders in one pass so that the result for one of them cannot be taken for (a part
+        # of) another one, for example the "m" of "%m" followed by an "m".
+        human_readable_to_strptime_map = dict(DateTimeFieldFormat._HUMAN_READABLE_TO_STRPTIME_TUPLES)
+        human_readable_regex = "|".join(
+            re.escape(human_readable_item)
+            for human_readable_item, _ in DateTimeFieldFormat._HUMAN_READABLE_TO_STRPTIME_TUPLES
+        )
+        self.strptime_format = re.sub(
+            human_readable_regex, lambda match: human_readable_to_strptime_map[match.group()], rule
+        )
         self._has_time = any(
             directive in self.strptime_format for directive in DateTimeFieldFormat._STRPTIME_TIME_DIRECTIVES
         )
